@@ -850,13 +850,112 @@ func (g *gen) entries(G []*types.Transaction, pool int, rate int64, keys []keyJ,
 		}
 		return 0
 	}
-	// single-field alterations of every member
+	mid := n / 2
+	// ---- core: structural alterations at the first, a middle and the last position (always present)
+	type pr struct{ i, j int }
+	pairs := []pr{{0, 1}, {n - 2, n - 1}, {0, n - 1}}
+	if n >= 4 {
+		pairs = append(pairs, pr{1, n - 2}, pr{1 + r.Intn(n-2), 1 + r.Intn(n-2)})
+	}
+	seen := map[pr]bool{}
+	for pi, p := range pairs {
+		if p.i == p.j || seen[p] || seen[pr{p.j, p.i}] {
+			continue
+		}
+		seen[p] = true
+		add("struct/swap", 0, opJ{Op: "swap", I: p.i, J: p.j})
+		if pi == 0 || pi == 3 {
+			add("struct/swap+rebuild", envFor(), opJ{Op: "swap", I: p.i, J: p.j}, opJ{Op: "rebuild"})
+		}
+	}
+	pos := []int{0, mid, n - 1}
+	if mid == 0 || mid == n-1 {
+		pos = []int{0, n - 1}
+	}
+	for pi, i := range pos {
+		k := r.Intn(pool)
+		add("struct/drop", 0, opJ{Op: "drop", I: i})
+		add("struct/dup", 0, opJ{Op: "dup", I: i})
+		add("struct/insert", 0, opJ{Op: "ins", I: i, J: k})
+		add("struct/subst", 0, opJ{Op: "subst", I: i, J: k})
+		if pi == len(pos)-1 { // the variants that re-hash every member: at one position (all positions in the sampled part)
+			add("struct/drop+count", 0, opJ{Op: "drop", I: i}, opJ{Op: "allcount", Z: int64(n - 1)})
+			add("struct/drop+count+rebuild", envFor(), opJ{Op: "drop", I: i}, opJ{Op: "allcount", Z: int64(n - 1)}, opJ{Op: "rebuild"})
+			add("struct/dup+count", 0, opJ{Op: "dup", I: i}, opJ{Op: "allcount", Z: int64(n + 1)})
+			add("struct/insert+count", 0, opJ{Op: "ins", I: i, J: k}, opJ{Op: "allcount", Z: int64(n + 1)})
+			add("struct/subst+rebuild", envFor(), opJ{Op: "subst", I: i, J: k}, opJ{Op: "rebuild"})
+		}
+	}
+	for k := 0; k < pool; k++ {
+		add("struct/append", 0, opJ{Op: "ins", I: n, J: k})
+	}
+	add("struct/append+count+rebuild", 1, opJ{Op: "ins", I: n, J: 0}, opJ{Op: "allcount", Z: int64(n + 1)}, opJ{Op: "rebuild"})
+	for _, k := range []int{n - 1, mid} {
+		if k >= 1 {
+			add("struct/keep", 0, opJ{Op: "keep", I: k})
+			if k == n-1 {
+				add("struct/keep+count", 0, opJ{Op: "keep", I: k}, opJ{Op: "allcount", Z: int64(k)})
+				add("struct/keep+count+rebuild", 0, opJ{Op: "keep", I: k}, opJ{Op: "allcount", Z: int64(k)}, opJ{Op: "rebuild"})
+			}
+		}
+	}
+	add("struct/rev", 0, opJ{Op: "rev"})
+	add("struct/rev+rebuild", 0, opJ{Op: "rev"}, opJ{Op: "rebuild"})
+	add("rebuild/unchanged", 0, opJ{Op: "rebuild"})
+	for _, z := range []int64{0, 21, int64(n + 1)} {
+		add("count/all", 0, opJ{Op: "allcount", Z: z})
+	}
+	add("count/all+rebuild", 1, opJ{Op: "allcount", Z: int64(n + 1)}, opJ{Op: "rebuild"})
+	// ---- core: fee edge cases (head fee around the required sum; other members carrying a fee)
+	for _, env := range []int{0, 4} {
+		rt := rate
+		if env == 4 {
+			rt = rate * 3
+		}
+		req := required(G, rt)
+		for _, f := range []int64{req - 1, req, req + 1, 0, -1, 150000, 150001, math.MaxInt64, math.MinInt64} {
+			if f == G[0].Fee {
+				continue
+			}
+			m := pclone(G[0])
+			m.Fee = f
+			add("fee/head", env, fieldOp(0, m))
+			if env == 0 && f == req-1 {
+				add("fee/head+rebuild", env, fieldOp(0, m), opJ{Op: "rebuild"})
+			}
+			if env == 0 && (f == 150000 || f == 150001) {
+				add("fee/head-ceiling", 5, fieldOp(0, m))
+				add("fee/head-ceiling", 6, fieldOp(0, m))
+				add("fee/head-ceiling", 7, fieldOp(0, m))
+				if f == 150001 {
+					add("fee/head-ceiling+rebuild", 5, fieldOp(0, m), opJ{Op: "rebuild"})
+				}
+			}
+		}
+	}
+	for _, i := range []int{1, n - 1} {
+		for _, f := range []int64{1, -1} {
+			m := pclone(G[i])
+			m.Fee = f
+			add("fee/other", envFor(), fieldOp(i, m))
+			if i == 1 && f == 1 {
+				add("fee/other+rebuild", envFor(), fieldOp(i, m), opJ{Op: "rebuild"})
+			}
+		}
+	}
+	{
+		i := r.Intn(n)
+		m := pclone(G[i])
+		m.ChainID = 77
+		add("chain/member", 2, fieldOp(i, m))
+		add("chain/member", 3, fieldOp(i, m))
+	}
+	// ---- sampled: single-field and signature alterations of every member, structure at every position
 	for i := 0; i < n; i++ {
 		names, muts := fieldMutants(r, G[i])
 		for k, m := range muts {
 			sadd("field/"+names[k], envFor(), fieldOp(i, m))
 		}
-		// header / next replaced by another member's values
 		j := (i + 1 + r.Intn(n-1)) % n
 		if !bytes.Equal(G[j].Next, G[i].Next) {
 			m := pclone(G[i])
@@ -868,7 +967,6 @@ func (g *gen) entries(G []*types.Transaction, pool int, rate int64, keys []keyJ,
 		if !bytes.Equal(m.Next, G[i].Next) {
 			sadd("field/Next:hash-of-other", 0, fieldOp(i, m))
 		}
-		// signature alterations
 		s := G[i].Signature
 		ms := func(desc string, ns *types.Signature) {
 			m := pclone(G[i])
@@ -900,10 +998,8 @@ func (g *gen) entries(G []*types.Transaction, pool int, rate int64, keys []keyJ,
 				sadd("sig/whole-of-other-member", 0, fieldOp(i, m), fieldOp(i, m2))
 			}
 		}
-		// signed again by another key: legitimate
 		ok := keys[(i+1)%len(keys)]
 		sadd("resign/other-key", envFor(), opJ{Op: "resign", I: i, Key: &ok})
-		// structural
 		sadd("struct/drop", 0, opJ{Op: "drop", I: i})
 		sadd("struct/drop+count", 0, opJ{Op: "drop", I: i}, opJ{Op: "allcount", Z: int64(n - 1)})
 		sadd("struct/drop+count+rebuild", envFor(), opJ{Op: "drop", I: i}, opJ{Op: "allcount", Z: int64(n - 1)}, opJ{Op: "rebuild"})
@@ -915,61 +1011,26 @@ func (g *gen) entries(G []*types.Transaction, pool int, rate int64, keys []keyJ,
 		}
 		for k := 0; k < pool; k++ {
 			sadd("struct/insert", 0, opJ{Op: "ins", I: i, J: k})
-			sadd("struct/insert+count", 0, opJ{Op: "ins", I: i, J: k}, opJ{Op: "allcount", Z: int64(n + 1)})
 			sadd("struct/subst", 0, opJ{Op: "subst", I: i, J: k})
-			sadd("struct/subst+rebuild", envFor(), opJ{Op: "subst", I: i, J: k}, opJ{Op: "rebuild"})
+			if k == 0 {
+				sadd("struct/insert+count", 0, opJ{Op: "ins", I: i, J: k}, opJ{Op: "allcount", Z: int64(n + 1)})
+				sadd("struct/subst+rebuild", envFor(), opJ{Op: "subst", I: i, J: k}, opJ{Op: "rebuild"})
+			}
 		}
 		if i >= 1 {
 			sadd("struct/keep", 0, opJ{Op: "keep", I: i})
-			sadd("struct/keep+count", 0, opJ{Op: "keep", I: i}, opJ{Op: "allcount", Z: int64(i)})
 		}
-	}
-	for k := 0; k < pool; k++ {
-		sadd("struct/append", 0, opJ{Op: "ins", I: n, J: k})
-		sadd("struct/append+count+rebuild", 1, opJ{Op: "ins", I: n, J: k}, opJ{Op: "allcount", Z: int64(n + 1)}, opJ{Op: "rebuild"})
-	}
-	sadd("struct/rev", 0, opJ{Op: "rev"})
-	sadd("struct/rev+rebuild", 0, opJ{Op: "rev"}, opJ{Op: "rebuild"})
-	sadd("rebuild/unchanged", 0, opJ{Op: "rebuild"})
-	for _, z := range []int64{0, 1, 21, int64(n + 1), -1} {
-		sadd("count/all", 0, opJ{Op: "allcount", Z: z})
-		sadd("count/all+rebuild", 1, opJ{Op: "allcount", Z: z}, opJ{Op: "rebuild"})
-	}
-	// fee edge cases (head fee around the required sum; other members carrying a fee)
-	for _, env := range []int{0, 4} {
-		rt := rate
-		if env == 4 {
-			rt = rate * 3
-		}
-		req := required(G, rt)
-		for _, f := range []int64{req - 1, req, req + 1, 0, -1, 150000, 150001, math.MaxInt64, math.MinInt64} {
-			if f == G[0].Fee {
-				continue
-			}
-			m := pclone(G[0])
-			m.Fee = f
-			sadd("fee/head", env, fieldOp(0, m))
-			sadd("fee/head+rebuild", env, fieldOp(0, m), opJ{Op: "rebuild"})
-			if f >= 150000 {
-				sadd("fee/head-ceiling", 5, fieldOp(0, m))
-				sadd("fee/head-ceiling", 6, fieldOp(0, m))
-				sadd("fee/head-ceiling", 7, fieldOp(0, m))
-			}
-		}
-	}
-	for i := 1; i < n; i++ {
 		for _, f := range []int64{1, -1} {
-			m := pclone(G[i])
-			m.Fee = f
-			sadd("fee/other", envFor(), fieldOp(i, m))
-			sadd("fee/other+rebuild", envFor(), fieldOp(i, m), opJ{Op: "rebuild"})
+			if i >= 1 {
+				m := pclone(G[i])
+				m.Fee = f
+				sadd("fee/other", envFor(), fieldOp(i, m))
+				sadd("fee/other+rebuild", envFor(), fieldOp(i, m), opJ{Op: "rebuild"})
+			}
 		}
-	}
-	// chain id under the strict fork
-	for i := 0; i < n; i++ {
-		m := pclone(G[i])
-		m.ChainID = 77
-		sadd("chain/member", 2+r.Intn(2), fieldOp(i, m))
+		mc := pclone(G[i])
+		mc.ChainID = 77
+		sadd("chain/member", 2+r.Intn(2), fieldOp(i, mc))
 	}
 	if !g.full && len(sampled) > budget {
 		hlib.Shuffle(r, sampled)
